@@ -413,6 +413,9 @@ def run(ctx: Ctx) -> None:
     ctx.rule("D20.6", "zero-distance objects are merged and mapped to "
              "their representative")
     _merging(ctx)
+    ctx.rule("D20.7", "the text form of an ordering reports, for every "
+             "original object, the position x[representative]")
+    _reported_position(ctx)
     ctx.assumptions += [
         "scipy rankdata(..., 'average') - 1 yields ranks in [0, n-1], "
         "equal for equal distances, smaller for nearer neighbours",
@@ -1157,3 +1160,111 @@ def _zero_test(t: ast.AST, dsrc: str, truth: bool, src: Any) -> bool:
     return _truth(t2, "d", 0.0) is truth and _truth(
         t2, "d", 1.0) is (not truth) and _truth(t2, "d", 1e-9) is (
         not truth)
+
+
+
+# ------------------------------------------------------------------ D20.7
+def _reported_position(ctx: Ctx) -> None:
+    """`instance.tags` holds (tag, index of the representative) for every
+    original object; the position the ordering `x` gives that object is
+    `x[index]` - the same cell the objective reads.  In the row loop of
+    `OrderingSpace.to_str` every array cell that reaches the row (locals
+    inlined) must be that cell."""
+    from sa.pathinline import Path, paths
+    from sa.srcmodel import inline_locals
+    repo = ctx.repo
+    fi = repo.func("moptipyapps.order1d.space", "OrderingSpace.to_str")
+    xp = fi.params[1]
+    loop = None
+    for lp in ast.walk(fi.node):
+        if isinstance(lp, ast.For) and ast.unparse(inline_locals(
+                fi.node, lp.iter)).endswith(".instance.tags"):
+            loop = lp
+    if loop is None or not (isinstance(loop.target, ast.Tuple) and len(
+            loop.target.elts) == 2 and all(isinstance(
+                t, ast.Name) for t in loop.target.elts)):
+        ctx.ob("D20.7", fi, fi.node, False,
+               "the loop over (tag, representative) of instance.tags is "
+               "not recognised", construct="reported position")
+        return
+    tagv, iv = (t.id for t in loop.target.elts)
+    # locals defined before the loop that name arrays derived from x
+    pre: dict[str, ast.expr] = {}
+    for st in ast.walk(fi.node):
+        if isinstance(st, (ast.Assign, ast.AnnAssign)) and getattr(
+                st, "value", None) is not None and st.lineno < loop.lineno:
+            tg = st.targets[0] if isinstance(st, ast.Assign) else st.target
+            if isinstance(tg, ast.Name):
+                pre[tg.id] = st.value
+    cells: list[ast.Subscript] = []
+    for q in paths(list(loop.body), Path()):
+        for e in q.events:
+            if not isinstance(e.value, ast.AST):
+                continue
+            for sb in ast.walk(e.value):
+                if isinstance(sb, ast.Subscript) and isinstance(
+                        sb.ctx, ast.Load) and not (isinstance(
+                            sb.value, ast.Name) and sb.value.id == tagv):
+                    cells.append(sb)
+    want = f"{xp}[{iv}]"
+
+    def same_values(e: ast.expr, depth: int = 4) -> bool | None:
+        """Does the expression hold the values of x in the same order?
+        (None: not known)"""
+        if isinstance(e, ast.Name):
+            if e.id == xp:
+                return True
+            if e.id in pre and depth > 0:
+                return same_values(pre[e.id], depth - 1)
+            return None
+        if isinstance(e, ast.Call):
+            fn = ast.unparse(e.func)
+            if fn in ("list", "tuple", "np.asarray", "np.array",
+                      "np.copy") and len(e.args) == 1:
+                return same_values(e.args[0], depth)
+            if isinstance(e.func, ast.Attribute) and e.func.attr in (
+                    "tolist", "copy") and not e.args:
+                return same_values(e.func.value, depth)
+            if fn.split(".")[-1] in ("argsort", "sort", "sorted", "flip",
+                                     "roll", "cumsum", "argmax", "argmin"):
+                return False
+        return None
+    norm: list[str] = []
+    unknown: list[str] = []
+    for c in cells:
+        if isinstance(c.value, ast.Name) and c.value.id != xp:
+            sv = same_values(c.value)
+            if sv is True:
+                norm.append(f"{xp}[{ast.unparse(c.slice)}]".replace(" ", ""))
+                continue
+            if sv is None:
+                unknown.append(ast.unparse(c))
+        norm.append(ast.unparse(c).replace(" ", ""))
+    got = sorted(set(norm))
+    if unknown and not any(
+            g != want and g not in [u.replace(" ", "") for u in unknown]
+            for g in got):
+        ctx.ob("D20.7", fi, loop, False,
+               f"the row of an original object reports `{unknown[0]}`, "
+               "whose relation to the ordering is not recognised",
+               construct="reported position")
+        return
+    if not cells:
+        ctx.ob("D20.7", fi, loop, False,
+               "no array cell reaches the rows of the text form; the "
+               "reported position is not recognised",
+               construct="reported position")
+        return
+    bad = [g for g in got if g != want]
+    detail = ""
+    if bad:
+        b0 = bad[0].split("[")[0]
+        detail = (f"the row of an original object reports `{bad[0]}`"
+                  + (f" with {b0} = `{ast.unparse(pre[b0])}`"
+                     if b0 in pre else "")
+                  + f", not `{want}`: the position that the ordering "
+                  "assigns to the object's representative")
+    ctx.ob("D20.7", fi, loop, not bad,
+           f"every row reports `{want}` (and `{want} / n`) for the "
+           "representative index stored in instance.tags" if not bad
+           else detail, construct="reported position")
